@@ -124,7 +124,49 @@ def inline_new_helpers(prg) -> int:  # type: ignore[no-untyped-def]
         if not progress:
             break
     done += _substitute_expression_helpers(prg, new)
+    if done:
+        for caller in list(prg.funcs.values()):
+            if not isinstance(caller.node, ast.Lambda):
+                _forward_accumulators(caller.node)
     return done
+
+
+def _forward_accumulators(fnode: ast.AST) -> int:
+    """`with <inlined helper>: ...; R = []; for ..: R.append(E)` followed by `X.extend(R)` (R used nowhere else): the helper
+    only collected what the caller extends X with, so the loop feeds X directly - the form `X.extend([E for ..])` has"""
+    count = 0
+    for block in _blocks(fnode):
+        i = 0
+        while i + 1 < len(block):
+            w, nxt = block[i], block[i + 1]
+            i += 1
+            if not (is_inline_block(w) and isinstance(nxt, ast.Expr) and isinstance(nxt.value, ast.Call) and isinstance(nxt.value.func, ast.Attribute) and nxt.value.func.attr == "extend"
+                    and len(nxt.value.args) == 1 and isinstance(nxt.value.args[0], ast.Name) and not nxt.value.keywords):
+                continue
+            r = nxt.value.args[0].id
+            recv = nxt.value.func.value
+            body = w.body  # type: ignore[attr-defined]
+            if len(body) < 2 or not isinstance(body[-1], ast.For):
+                continue
+            init = body[-2]
+            if not (isinstance(init, (ast.Assign, ast.AnnAssign)) and isinstance(init.value, ast.List) and not init.value.elts and isinstance(init.targets[0] if isinstance(init, ast.Assign) else init.target, ast.Name)
+                    and (init.targets[0] if isinstance(init, ast.Assign) else init.target).id == r):  # type: ignore[union-attr]
+                continue
+            uses = [n for n in ast.walk(fnode) if isinstance(n, ast.Name) and n.id == r]
+            appends = [n for n in ast.walk(body[-1]) if isinstance(n, ast.Call) and isinstance(n.func, ast.Attribute) and n.func.attr == "append" and isinstance(n.func.value, ast.Name) and n.func.value.id == r and len(n.args) == 1]
+            if len(uses) != len(appends) + 2:
+                continue  # R is read or written somewhere else
+            recv_names = {n.id for n in ast.walk(recv) if isinstance(n, ast.Name)}
+            stored = {n.id for n in ast.walk(w) if isinstance(n, ast.Name) and isinstance(n.ctx, ast.Store)}
+            if recv_names & stored:
+                continue
+            for a in appends:
+                a.func.value = copy.deepcopy(recv)  # type: ignore[attr-defined]
+            del body[-2]
+            block.remove(nxt)
+            ast.fix_missing_locations(w)
+            count += 1
+    return count
 
 
 def _substitute_expression_helpers(prg, new: set[str]) -> int:  # type: ignore[no-untyped-def]
